@@ -5,13 +5,14 @@
 
 """Functions for downloading license files from spdx/license-list-data."""
 
+import contextlib
 import errno
 import logging
 import os
 import shutil
 import urllib.request
 from pathlib import Path
-from typing import Optional
+from typing import Any, Callable, Optional
 from urllib.error import URLError
 from urllib.parse import urljoin
 
@@ -106,11 +107,29 @@ def put_license_in_file(
                 raise FileNotFoundError(
                     errno.ENOENT, os.strerror(errno.ENOENT), str(source)
                 )
-            shutil.copyfile(source, destination)
+            _write_or_remove(
+                destination, lambda: shutil.copyfile(source, destination)
+            )
         else:
             destination.touch()
     else:
         text = download_license(spdx_identifier)
-        with destination.open("w", encoding="utf-8") as fp:
-            fp.write(header)
-            fp.write(text)
+
+        def write() -> None:
+            with destination.open("w", encoding="utf-8") as fp:
+                fp.write(header)
+                fp.write(text)
+
+        _write_or_remove(destination, write)
+
+
+def _write_or_remove(destination: Path, write: Callable[[], Any]) -> None:
+    """Half of a license text is worse than none: if *write* fails, do not leave
+    behind what it has written of *destination* so far.
+    """
+    try:
+        write()
+    except OSError:
+        with contextlib.suppress(OSError):
+            destination.unlink()
+        raise
